@@ -115,6 +115,9 @@ def runs_for(pid, tier, seed):
             R('lists of four', fm.four_long(CritLists=crit, Sided={'two'}, Stabs={True}, OrderMode='all'), simulate=1500 if q else 20000),
             R('three lecturers', fm.lec3(CritLists=crit, Sided={'two'}, Stabs={True}), simulate=2000 if q else 25000),
             R('large ids', fm.shifted(CritLists=crit, Sided={'two'}, Stabs={True}, NL=1), simulate=200 if q else 2500, invariants=fm.BIG_INVARIANTS),
+            # a LONG lecturer list (33 / 40 further students whose only choice has upper quota 0) around a 3-student core with ties
+            R('crowd on one lecturer list', fm.shifted(CritLists=crit, Sided={'two'}, Stabs={True}, NS=3, NL=1, PQ={(0, 1), (0, 2)}, LQ={(0, 1, 1), (0, 2, 2)},
+                                                       Shifts=fm.CROWDS), simulate=120 if q else 1500, invariants=fm.BIG_INVARIANTS),
         ]
         return runs
     if pid == 'C11':
